@@ -126,3 +126,14 @@ int win_unchecked(const char *dest, unsigned long dmax, int ch, char **resultp) 
     *resultp = strrchr(dest, ch);
     return *resultp ? 0 : 409;
 }
+/* signedness rule: bytes are compared as unsigned char */
+int cmp8_unsigned_good(const char *dest, unsigned long dmax, const char *src, int *resultp) {
+    while (dmax && *dest && *src && *dest == *src) { dest++; src++; dmax--; }
+    *resultp = (unsigned char)*dest - (unsigned char)*src;
+    return 0;
+}
+int cmp8_signed(const signed char *dest, unsigned long dmax, const signed char *src, int *resultp) {
+    while (dmax && *dest && *src && *dest == *src) { dest++; src++; dmax--; }
+    *resultp = *dest - *src;
+    return 0;
+}
